@@ -2,7 +2,8 @@
 N2 — text.  Model of the numeral rendering / parsing in `packages/bignumber/src/math.rs`
 (`Display`, `FromStr`, `TryFrom<&str>`, the string-based serde impls) and of the `bigint::U256`
 decimal `Display` / `from_dec_str` they are built on.  Text is a list of bytes (`List Nat`,
-ASCII codes); `48..57` are the digits, `46` the dot, `34` the JSON quote.
+ASCII codes); `48..57` are the digits, `46` the dot, `34` the JSON quote, `92` the backslash.
+JSON decoding follows `serde-json-wasm` 0.4.1 including its escape sequences.
 -/
 import Halo.Num
 
@@ -74,22 +75,151 @@ def uintParse (s : List Nat) : M Nat := parseDigits s
 /-- serde: both types serialise as a JSON string of their `Display` text -/
 def jsonEnc (s : List Nat) : List Nat := [34] ++ s ++ [34]
 
-/-- JSON string decoding restricted to texts without escapes, quotes or control bytes
-(everything the encoders above can produce); other inputs are outside the model -/
+/-! ### JSON string decoding: `serde-json-wasm` 0.4.1 `de::Deserializer::{deserialize_str, parse_string}`
+and `de::unescape::unescape`, followed literally (escapes included) -/
+
+/-- `parse_whitespace` -/
 def isJsonWs (b : Nat) : Bool := b == 32 || b == 9 || b == 10 || b == 13
 
-def jsonDec (j0 : List Nat) : M (List Nat) :=
-  -- JSON permits insignificant whitespace around the value
-  let j := ((j0.dropWhile isJsonWs).reverse.dropWhile isJsonWs).reverse
-  match j with
-  | 34 :: rest =>
-    match rest.reverse with
-    | 34 :: innerRev =>
-      let inner := innerRev.reverse
-      if inner.all (fun b => decide (32 ≤ b) && decide (b ≠ 34) && decide (b ≠ 92) && decide (b < 127)) then .ok inner
-      else .error .err
-    | _ => .error .err
-  | _ => .error .err
+/-- `hex_decode_4bit`, restricted to the bytes `unescape` lets through (`0-9a-fA-F`) -/
+def hexNibble (b : Nat) : Option Nat :=
+  if 48 ≤ b ∧ b ≤ 57 then some (b - 48)
+  else if 97 ≤ b ∧ b ≤ 102 then some (b - 87)
+  else if 65 ≤ b ∧ b ≤ 70 then some (b - 55)
+  else none
+
+/-- `char::encode_utf8` of a scalar value -/
+def utf8Enc (c : Nat) : List Nat :=
+  if c < 0x80 then [c]
+  else if c < 0x800 then [0xC0 + c / 64, 0x80 + c % 64]
+  else if c < 0x10000 then [0xE0 + c / 4096, 0x80 + c / 64 % 64, 0x80 + c % 64]
+  else [0xF0 + c / 262144, 0x80 + c / 4096 % 64, 0x80 + c / 64 % 64, 0x80 + c % 64]
+
+/-- `core::str::from_utf8(..).is_ok()`: well-formed UTF-8 (no overlong forms, no surrogates, nothing
+above U+10FFFF).  `need` continuation bytes are outstanding and the next one must lie in `lo..=hi`. -/
+def utf8From : Nat → Nat → Nat → List Nat → Bool
+  | need, _, _, [] => need == 0
+  | 0, _, _, b :: bs =>
+    if b < 0x80 then utf8From 0 0 0 bs
+    else if 0xC2 ≤ b ∧ b ≤ 0xDF then utf8From 1 0x80 0xBF bs
+    else if b = 0xE0 then utf8From 2 0xA0 0xBF bs
+    else if b = 0xED then utf8From 2 0x80 0x9F bs
+    else if 0xE1 ≤ b ∧ b ≤ 0xEF then utf8From 2 0x80 0xBF bs
+    else if b = 0xF0 then utf8From 3 0x90 0xBF bs
+    else if 0xF1 ≤ b ∧ b ≤ 0xF3 then utf8From 3 0x80 0xBF bs
+    else if b = 0xF4 then utf8From 3 0x80 0x8F bs
+    else false
+  | n + 1, lo, hi, b :: bs => if lo ≤ b ∧ b ≤ hi then utf8From n 0x80 0xBF bs else false
+
+def utf8Valid (s : List Nat) : Bool := utf8From 0 0 0 s
+
+/-- where `unescape` is inside an escape sequence -/
+inductive EscState
+  | normal                    -- `!in_escape`
+  | esc                       -- `in_escape && !in_unicode`: the byte after a backslash
+  | uni (k acc : Nat)         -- `in_unicode`: `k < 4` hex digits read so far, their value `acc`
+  deriving DecidableEq, Repr
+
+/-- prepend already decoded bytes to the rest of the output -/
+def emit (xs : List Nat) (r : M (List Nat)) : M (List Nat) :=
+  match r with
+  | .ok o => .ok (xs ++ o)
+  | .error e => .error e
+
+/-- the byte loop of `unescape` (before the final `String::from_utf8`); `high` is `high_surrogate`.
+Quirks kept: every byte `≤ 0x1F` is an error wherever it stands; a pending high surrogate is only
+checked when a *raw* byte is copied and at the end (so `\ud800\n\udc00` is accepted), a low
+surrogate without a high one and a high one followed by another high one are errors; `\u` takes
+exactly four hex digits of either case; any other byte after `\` is an error; a sequence cut short
+by the end of the string is an error. -/
+def unescFrom : EscState → Option Nat → List Nat → M (List Nat)
+  | .normal, none, [] => .ok []
+  | _, _, [] => .error .err
+  | st, high, b :: bs =>
+    if b ≤ 0x1F then .error .err
+    else match st with
+      | .normal =>
+        if b = 92 then unescFrom .esc high bs
+        else if high.isSome then .error .err
+        else emit [b] (unescFrom .normal high bs)
+      | .esc =>
+        if b = 34 ∨ b = 47 ∨ b = 92 then emit [b] (unescFrom .normal high bs)
+        else if b = 98 then emit [8] (unescFrom .normal high bs)
+        else if b = 102 then emit [12] (unescFrom .normal high bs)
+        else if b = 110 then emit [10] (unescFrom .normal high bs)
+        else if b = 114 then emit [13] (unescFrom .normal high bs)
+        else if b = 116 then emit [9] (unescFrom .normal high bs)
+        else if b = 117 then unescFrom (.uni 0 0) high bs
+        else .error .err
+      | .uni k acc =>
+        match hexNibble b with
+        | none => .error .err
+        | some d =>
+          let cp := acc * 16 + d
+          if k < 3 then unescFrom (.uni (k + 1) cp) high bs
+          else if 0xD800 ≤ cp ∧ cp ≤ 0xDFFF then
+            match high with
+            | some h =>
+              if cp < 0xDC00 then .error .err
+              else emit (utf8Enc (0x10000 + ((h - 0xD800) * 1024 + (cp - 0xDC00))))
+                (unescFrom .normal none bs)
+            | none =>
+              if 0xDBFF < cp then .error .err
+              else unescFrom .normal (some cp) bs
+          else emit (utf8Enc cp) (unescFrom .normal high bs)
+
+/-- `de::unescape::unescape` -/
+def unescape (s : List Nat) : M (List Nat) := do
+  let out ← unescFrom .normal none s
+  if utf8Valid out then .ok out else .error .err
+
+/-- what `parse_string` makes of the raw bytes between the quotes: with a backslash anywhere they are
+unescaped, without one they are only checked to be UTF-8 (raw control bytes pass on this path) -/
+def jsonUnescape (body : List Nat) : M (List Nat) :=
+  if body.contains 92 then unescape body
+  else if utf8Valid body then .ok body else .error .err
+
+/-- the scanning loop of `parse_string`, started after the opening quote: the raw body up to the first
+quote not preceded by an odd run of backslashes, and what follows that quote.  `esc` is `escaped`. -/
+def jsonScan : Bool → List Nat → Option (List Nat × List Nat)
+  | _, [] => none
+  | esc, b :: bs =>
+    if b = 34 ∧ esc = false then some ([], bs)
+    else
+      match jsonScan (if b = 92 then !esc else false) bs with
+      | some (body, tail) => some (b :: body, tail)
+      | none => none
+
+/-- `from_slice::<String>`-like decoding of a JSON text that must be one string: whitespace, the
+opening quote, the scanned and unescaped body, nothing but whitespace after the closing quote -/
+def jsonDec (j : List Nat) : M (List Nat) :=
+  match j.dropWhile isJsonWs with
+  | [] => .error .err
+  | b :: rest =>
+    if b = 34 then
+      match jsonScan false rest with
+      | some (body, tail) => if tail.all isJsonWs then jsonUnescape body else .error .err
+      | none => .error .err
+    else .error .err
+
+/-! ### `Decimal256 ↔ cosmwasm_std::Decimal` (both go through `to_string` / `from_str`) -/
+
+/-- `From<Decimal256> for Decimal`: `assert!(arr[2] == 0)`, `assert!(arr[3] == 0)`, then
+`Decimal::from_str(&n.to_string()).unwrap()`.  `cosmwasm_std::Decimal` renders exactly like
+`decRender` and, on such canonical numerals, parses like `decParse` with a 128-bit bound on the atomics. -/
+def decToStd (v : Nat) : M Nat :=
+  match Limbs.toU128 (Limbs.ofNat v) with
+  | .error _ => .error .abort
+  | .ok _ =>
+    match decParse (decRender v) with
+    | .ok a => if a < W then .ok a else .error .abort
+    | .error _ => .error .abort
+
+/-- `From<Decimal> for Decimal256`: `Decimal256::from_str(&val.to_string()).unwrap()` -/
+def decFromStd (a : Nat) : M Nat :=
+  match decParse (decRender a) with
+  | .ok v => .ok v
+  | .error _ => .error .abort
 
 /-! ### independent meaning of a numeral (used by the specification, not by the parser) -/
 
